@@ -31,6 +31,21 @@ Theorem C18_rrect_row_contiguous : forall r y x1 x2 x3,
   rr_contains r (P x1 y) = true -> rr_contains r (P x3 y) = true -> rr_contains r (P x2 y) = true.
 Proof. exact rr_row_contiguous. Qed.
 
+(* ... and every column *)
+Theorem C18_rrect_col_contiguous : forall r x y1 y2 y3,
+  rr_ok r -> y1 <= y2 <= y3 ->
+  rr_contains r (P x y1) = true -> rr_contains r (P x y3) = true -> rr_contains r (P x y2) = true.
+Proof. exact rr_col_contiguous. Qed.
+
+(* even sides 2a x 2b, every radius (a, b): the rounded rectangle is the ellipse with the same bounding box.
+   rr_ellipse_contains is the line-by-line model of Ellipse::contains (ellipse/mod.rs:109-130, 188-218, incl. the circle
+   threshold), tied to the real Ellipse by the correspondence suite rr_ellipse_pt. *)
+Theorem C18_rrect_half_eq_ellipse : forall t a b p,
+  point_ok t -> 0 <= 2 * a <= bound -> 0 <= 2 * b <= bound ->
+  rr_contains (RR (R t (S (a * 2) (b * 2))) (radii_equal (S a b))) p =
+  rr_ellipse_contains t (S (a * 2) (b * 2)) p.
+Proof. exact rr_half_eq_ellipse. Qed.
+
 (* non-vacuity: the input of the repaired defect h *)
 Example C18_rrect_nonvacuous :
   let c := CR (S 60 10) (S 50 0) (S 0 0) (S 0 9) in
